@@ -134,12 +134,18 @@ def run_property(prop, spec, tier, seed=0, tus=None, quiet=False):
             AGGREGATES[rn](exports, M, tier)
     for fn in spec.get('static', []):
         fn(M, tier)
+    take = spec.get('take')
+    if take is not None:
+        take = set(take)
+        M.findings = [f for f in M.findings if f['rule'] in take]
+        M.obl = {k: v for k, v in M.obl.items() if k in take}
+        M.samples = {k: v for k, v in M.samples.items() if k in take}
     stats = {'tus': [r['tu'] for r in results], 'extract_s': round(sum(r['extract_s'] for r in results), 1),
              'cached': sum(1 for r in results if r['cached']), 'nfuncs': sum(r['nfuncs'] for r in results)}
     return finish(prop, spec, tier, seed, t0, M, stats=stats)
 
 def finish(prop, spec, tier, seed, t0, M, broken=False, stats=None):
-    ev_dir = os.path.join(VERIF, 'evidence'); os.makedirs(ev_dir, exist_ok=True)
+    ev_dir = os.environ.get('VERIF_EVIDENCE_DIR') or os.path.join(VERIF, 'evidence'); os.makedirs(ev_dir, exist_ok=True)
     ev_path = os.path.join(ev_dir, prop + '.json')
     if broken:
         if os.path.exists(ev_path): os.unlink(ev_path)
